@@ -13,6 +13,10 @@ theorem inv_work (c : Cfg) (ar aq : Nat) (s : S) (h : Inv c ar aq s) : Inv c ar 
   unfold work
   by_cases hrun : s.running = true
   · rw [if_neg (by simp [hrun])]
+    by_cases hbw : bodyWait s = true
+    · rw [if_pos hbw]; exact h
+    rw [if_neg hbw]
+    simp only [Bool.not_eq_true] at hbw
     split
     · rename_i hp; exact inv_work_init c ar aq s h hp
     · rename_i hp; exact inv_work_pre c ar aq s h hrun (Or.inl hp)
@@ -28,8 +32,8 @@ theorem inv_work (c : Cfg) (ar aq : Nat) (s : S) (h : Inv c ar aq s) : Inv c ar 
     · rename_i hp; exact inv_work_wait c ar aq s h hrun hp
     · rename_i hp; exact inv_work_upfilter c ar aq s h hrun hp
     · rename_i hp; exact inv_work_urh c ar aq s h hrun hp
-    · rename_i hp; exact inv_work_urd c ar aq s h hrun hp
-    · rename_i hp; exact inv_work_urt c ar aq s h hrun hp
+    · rename_i hp; exact inv_work_urd c ar aq s h hrun hp hbw
+    · rename_i hp; exact inv_work_urt c ar aq s h hrun hp hbw
     · rename_i hp; exact inv_work_end c ar aq s h hrun hp
   · rw [if_pos (by simpa using hrun)]
     exact h
